@@ -4,7 +4,7 @@
    check (bin/check C10) and by the regenerated constants (Gen_Consts). *)
 From Coq Require Import List ZArith Lia Bool Arith NArith.
 From Coq.Strings Require Import Byte.
-From Muduo Require Import Base_Bytes Gen_Consts Gen_C10 C10_Model C10_Proofs C10_GenLink.
+From Muduo Require Import Base_Bytes Gen_Consts Gen_C10 C10_Model C10_Proofs C10_Cast C10_GenLink.
 Import ListNotations.
 
 (* Every reachable concrete state [st] (any initial sizes, any accepted operation
@@ -187,104 +187,230 @@ Print Assumptions C10_find_first_eol.
 
 (* ---- the source's own comparisons, assertions, index assignments and size arguments
    (Gen_C10, regenerated from the clang AST of Buffer.h / Buffer.cc on every run) are the
-   ones of the model.  Zn = Z.of_nat; P is an arbitrary address (peek()). ---------------- *)
+   ones of the model.  Every generated fact is a function over the record [obs] of NAMED
+   observables (o_readerIndex, o_writerIndex, o_buffer_size, o_readableBytes, o_writableBytes,
+   o_prependableBytes, o_peek, o_beginWrite, o_kCheapPrepend, o_len, o_n, ...): it is evaluated
+   on [buf_obs b B e] = the model's values for buffer [b] under those names (B = begin(), an
+   arbitrary address), every name that is not in scope taken from an ARBITRARY record [e], the
+   parameters / locals in scope set by name.  A source operand replaced by another observable
+   therefore changes the value of the fact (it is not a matter of argument position).
+   Zn = Z.of_nat. ------------------------------------------------------------------------ *)
 Local Notation Zn := Z.of_nat.
 
-Theorem C10_gen_constructor : forall n,
-  Buffer_init_buffer (Zn n) kCP = Zn (length (store (new_buf n))) /\
-  Buffer_init_readerIndex kCP = Zn (ridx (new_buf n)) /\
-  Buffer_init_writerIndex kCP = Zn (widx (new_buf n)) /\
-  Buffer_assert0 (Zn (readableBytes (new_buf n))) = true /\
-  Buffer_assert1 (Zn n) (Zn (writableBytes (new_buf n))) = true /\
-  Buffer_assert2 kCP (Zn (prependableBytes (new_buf n))) = true.
+Theorem C10_gen_constructor : forall n B e,
+  let o0 := set_initialSize (Zn n) (set_kCheapPrepend kCP e) in
+  let o := set_initialSize (Zn n) (buf_obs (new_buf n) B e) in
+  Buffer_init_buffer o0 = Zn (length (store (new_buf n))) /\
+  Buffer_init_readerIndex o0 = Zn (ridx (new_buf n)) /\
+  Buffer_init_writerIndex o0 = Zn (widx (new_buf n)) /\
+  Buffer_assert0 o = true /\
+  Buffer_assert1 o = true /\
+  Buffer_assert2 o = true.
 Proof. exact gen_constructor. Qed.
 Print Assumptions C10_gen_constructor.
 
-Theorem C10_gen_observers : forall b, ridx b <= widx b -> widx b <= length (store b) ->
-  readableBytes_ret (Zn (ridx b)) (Zn (widx b)) = Zn (readableBytes b) /\
-  writableBytes_ret (Zn (length (store b))) (Zn (widx b)) = Zn (writableBytes b) /\
-  prependableBytes_ret (Zn (ridx b)) = Zn (prependableBytes b).
+(* the bodies of the three size observers read the private members only *)
+Theorem C10_gen_observers : forall b e, ridx b <= widx b -> widx b <= length (store b) ->
+  readableBytes_ret (mem_obs b e) = Zn (readableBytes b) /\
+  writableBytes_ret (mem_obs b e) = Zn (writableBytes b) /\
+  prependableBytes_ret (mem_obs b e) = Zn (prependableBytes b).
 Proof. exact gen_observers. Qed.
 Print Assumptions C10_gen_observers.
 
-Theorem C10_gen_pointer_asserts : forall b P off,
-  let start := (P + off)%Z in
-  let bw := (P + Zn (readableBytes b))%Z in
-  (findCRLF1_assert0 P start && findCRLF1_assert1 bw start = ptr_ok off b) /\
-  (findEOL1_assert0 P start && findEOL1_assert1 bw start = ptr_ok off b) /\
-  (retrieveUntil_assert0 start P && retrieveUntil_assert1 bw start = ptr_ok off b) /\
-  retrieveUntil_call0_retrieve start P = off.
+Theorem C10_gen_pointer_asserts : forall b B off e, ridx b <= widx b ->
+  let os := set_start (B + Zn (ridx b) + off)%Z (buf_obs b B e) in
+  let oe := set_end (B + Zn (ridx b) + off)%Z (buf_obs b B e) in
+  (findCRLF1_assert0 os && findCRLF1_assert1 os = ptr_ok off b) /\
+  (findEOL1_assert0 os && findEOL1_assert1 os = ptr_ok off b) /\
+  (retrieveUntil_assert0 oe && retrieveUntil_assert1 oe = ptr_ok off b) /\
+  retrieveUntil_call0_retrieve oe = off.
 Proof. exact gen_pointer_asserts. Qed.
 Print Assumptions C10_gen_pointer_asserts.
 
-Theorem C10_gen_retrieve : forall b n,
-  retrieve_assert0 (Zn n) (Zn (readableBytes b)) = (n <=? readableBytes b) /\
-  retrieve_if0 (Zn n) (Zn (readableBytes b)) = (n <? readableBytes b) /\
-  retrieve_set0_readerIndex (Zn n) (Zn (ridx b)) = Zn (ridx b + n) /\
-  retrieveAll_set0_readerIndex kCP = Zn (ridx (retrieveAll b)) /\
-  retrieveAll_set1_writerIndex kCP = Zn (widx (retrieveAll b)) /\
-  retrieveAsString_assert0 (Zn n) (Zn (readableBytes b)) = (n <=? readableBytes b) /\
-  retrieveAsString_call0_retrieve (Zn n) = Zn n /\
-  retrieveAllAsString_call0_retrieveAsString (Zn (readableBytes b)) = Zn (readableBytes b).
+Theorem C10_gen_retrieve : forall b n B e,
+  let o := set_len (Zn n) (buf_obs b B e) in
+  retrieve_assert0 o = (n <=? readableBytes b) /\
+  retrieve_if0 o = (n <? readableBytes b) /\
+  retrieve_set0_readerIndex o = Zn (ridx b + n) /\
+  retrieveAll_set0_readerIndex (buf_obs b B e) = Zn (ridx (retrieveAll b)) /\
+  retrieveAll_set1_writerIndex (buf_obs b B e) = Zn (widx (retrieveAll b)) /\
+  retrieveAsString_assert0 o = (n <=? readableBytes b) /\
+  retrieveAsString_call0_retrieve o = Zn n /\
+  retrieveAllAsString_call0_retrieveAsString (buf_obs b B e) = Zn (readableBytes b).
 Proof. exact gen_retrieve. Qed.
 Print Assumptions C10_gen_retrieve.
 
-Theorem C10_gen_widths :
-  retrieveInt64_call0_retrieve = Zn (wbytes W64) /\ retrieveInt32_call0_retrieve = Zn (wbytes W32) /\
-  retrieveInt16_call0_retrieve = Zn (wbytes W16) /\ retrieveInt8_call0_retrieve = Zn (wbytes W8) /\
-  appendInt64_call0_append = Zn (wbytes W64) /\ appendInt32_call0_append = Zn (wbytes W32) /\
-  appendInt16_call0_append = Zn (wbytes W16) /\ appendInt8_call0_append = Zn (wbytes W8) /\
-  prependInt64_call0_prepend = Zn (wbytes W64) /\ prependInt32_call0_prepend = Zn (wbytes W32) /\
-  prependInt16_call0_prepend = Zn (wbytes W16) /\ prependInt8_call0_prepend = Zn (wbytes W8).
+Theorem C10_gen_widths : forall e,
+  retrieveInt64_call0_retrieve e = Zn (wbytes W64) /\ retrieveInt32_call0_retrieve e = Zn (wbytes W32) /\
+  retrieveInt16_call0_retrieve e = Zn (wbytes W16) /\ retrieveInt8_call0_retrieve e = Zn (wbytes W8) /\
+  appendInt64_call0_append e = Zn (wbytes W64) /\ appendInt32_call0_append e = Zn (wbytes W32) /\
+  appendInt16_call0_append e = Zn (wbytes W16) /\ appendInt8_call0_append e = Zn (wbytes W8) /\
+  prependInt64_call0_prepend e = Zn (wbytes W64) /\ prependInt32_call0_prepend e = Zn (wbytes W32) /\
+  prependInt16_call0_prepend e = Zn (wbytes W16) /\ prependInt8_call0_prepend e = Zn (wbytes W8).
 Proof. exact gen_widths. Qed.
 Print Assumptions C10_gen_widths.
 
-Theorem C10_gen_peekInt_asserts : forall b,
-  peekInt64_assert0 (Zn (readableBytes b)) = (wbytes W64 <=? readableBytes b) /\
-  peekInt32_assert0 (Zn (readableBytes b)) = (wbytes W32 <=? readableBytes b) /\
-  peekInt16_assert0 (Zn (readableBytes b)) = (wbytes W16 <=? readableBytes b) /\
-  peekInt8_assert0 (Zn (readableBytes b)) = (wbytes W8 <=? readableBytes b).
+Theorem C10_gen_peekInt_asserts : forall b B e,
+  peekInt64_assert0 (buf_obs b B e) = (wbytes W64 <=? readableBytes b) /\
+  peekInt32_assert0 (buf_obs b B e) = (wbytes W32 <=? readableBytes b) /\
+  peekInt16_assert0 (buf_obs b B e) = (wbytes W16 <=? readableBytes b) /\
+  peekInt8_assert0 (buf_obs b B e) = (wbytes W8 <=? readableBytes b).
 Proof. exact gen_peekInt_asserts. Qed.
 Print Assumptions C10_gen_peekInt_asserts.
 
-Theorem C10_gen_write_side : forall b n,
-  ensureWritableBytes_if0 (Zn n) (Zn (writableBytes b)) = (writableBytes b <? n) /\
-  ensureWritableBytes_call0_makeSpace (Zn n) = Zn n /\
-  ensureWritableBytes_assert0 (Zn n) (Zn (writableBytes b)) = (n <=? writableBytes b) /\
-  hasWritten_assert0 (Zn n) (Zn (writableBytes b)) = (n <=? writableBytes b) /\
-  hasWritten_set0_writerIndex (Zn n) (Zn (widx b)) = Zn (widx b + n) /\
-  unwrite_assert0 (Zn n) (Zn (readableBytes b)) = (n <=? readableBytes b) /\
-  (n <= widx b -> unwrite_set0_writerIndex (Zn n) (Zn (widx b)) = Zn (widx b - n)) /\
-  prepend_assert0 (Zn n) (Zn (prependableBytes b)) = (n <=? prependableBytes b) /\
-  (n <= ridx b -> prepend_set0_readerIndex (Zn n) (Zn (ridx b)) = Zn (ridx b - n)) /\
-  shrink_call0_ensureWritableBytes (Zn (readableBytes b)) (Zn n) = Zn (readableBytes b + n).
+Theorem C10_gen_write_side : forall b n B e,
+  let o := set_len (Zn n) (buf_obs b B e) in
+  ensureWritableBytes_if0 o = (writableBytes b <? n) /\
+  ensureWritableBytes_call0_makeSpace o = Zn n /\
+  ensureWritableBytes_assert0 o = (n <=? writableBytes b) /\
+  hasWritten_assert0 o = (n <=? writableBytes b) /\
+  hasWritten_set0_writerIndex o = Zn (widx b + n) /\
+  unwrite_assert0 o = (n <=? readableBytes b) /\
+  (n <= widx b -> unwrite_set0_writerIndex o = Zn (widx b - n)) /\
+  prepend_assert0 o = (n <=? prependableBytes b) /\
+  (n <= ridx b -> prepend_set0_readerIndex o = Zn (ridx b - n)) /\
+  shrink_call0_ensureWritableBytes (set_reserve (Zn n) (buf_obs b B e)) = Zn (readableBytes b + n).
 Proof. exact gen_write_side. Qed.
 Print Assumptions C10_gen_write_side.
 
-Theorem C10_gen_makeSpace : forall b len,
-  makeSpace_if0 kCP (Zn len) (Zn (prependableBytes b)) (Zn (writableBytes b))
-    = (writableBytes b + prependableBytes b <? len + kCheapPrepend) /\
-  makeSpace_call0_resize (Zn len) (Zn (widx b)) = Zn (widx b + len) /\
-  makeSpace_assert0 kCP (Zn (ridx b)) = (kCheapPrepend <? ridx b) /\
-  makeSpace_set0_readerIndex kCP = Zn kCheapPrepend /\
-  makeSpace_set1_writerIndex (Zn (readableBytes b)) (makeSpace_set0_readerIndex kCP)
+(* compaction branch: `readable` = the local copy of readableBytes() taken before the indices
+   move; set1 reads the reader index set0 has just stored; assert1 holds of the buffer after
+   both assignments *)
+Theorem C10_gen_makeSpace : forall b len B e, ridx b <= widx b ->
+  let o := set_len (Zn len) (buf_obs b B e) in
+  let o1 := set_readable (Zn (readableBytes b)) o in
+  let b' := mkBuf (store b) kCheapPrepend (kCheapPrepend + readableBytes b) 0 in
+  makeSpace_if0 o = (writableBytes b + prependableBytes b <? len + kCheapPrepend) /\
+  makeSpace_call0_resize o = Zn (widx b + len) /\
+  makeSpace_assert0 o = (kCheapPrepend <? ridx b) /\
+  makeSpace_set0_readerIndex o1 = Zn kCheapPrepend /\
+  makeSpace_set1_writerIndex (set_readerIndex (makeSpace_set0_readerIndex o1) o1)
     = Zn (kCheapPrepend + readableBytes b) /\
-  makeSpace_assert1 (Zn (readableBytes b)) (Zn (readableBytes b)) = true.
+  makeSpace_assert1 (set_readable (Zn (readableBytes b)) (set_len (Zn len) (buf_obs b' B e))) = true.
 Proof. exact gen_makeSpace. Qed.
 Print Assumptions C10_gen_makeSpace.
 
-Theorem C10_gen_readFd : forall b n,
-  readFd_set0_iov_len (Zn (writableBytes b)) = Zn (writableBytes b) /\
-  readFd_set1_iov_len = Zn kExtraBuf /\
-  readFd_let_iovcnt (Zn (writableBytes b)) = Zn (readFd_iovcnt b) /\
-  readFd_if0 (-1) = true /\ readFd_if0 (Zn n) = false /\
-  readFd_if1 (Zn n) (Zn (writableBytes b)) = (n <=? writableBytes b) /\
-  readFd_set2_writerIndex (Zn n) (Zn (widx b)) = Zn (widx b + n) /\
-  readFd_set3_writerIndex (Zn (length (store b))) = Zn (length (store b)) /\
-  (writableBytes b <= n -> readFd_call0_append (Zn n) (Zn (writableBytes b)) = Zn (n - writableBytes b)) /\
-  readFd_ret (Zn n) = Zn n.
+(* `writable` = the local copy of writableBytes() taken on entry, `n` = the result of readv *)
+Theorem C10_gen_readFd : forall b n B e,
+  let o := set_n (Zn n) (set_writable (Zn (writableBytes b)) (buf_obs b B e)) in
+  let oerr := set_n (-1)%Z (set_writable (Zn (writableBytes b)) (buf_obs b B e)) in
+  readFd_set0_iov_len o = Zn (writableBytes b) /\
+  readFd_set1_iov_len o = Zn kExtraBuf /\
+  readFd_let_iovcnt o = Zn (readFd_iovcnt b) /\
+  readFd_if0 oerr = true /\ readFd_if0 o = false /\
+  readFd_if1 o = (n <=? writableBytes b) /\
+  readFd_set2_writerIndex o = Zn (widx b + n) /\
+  readFd_set3_writerIndex o = Zn (length (store b)) /\
+  (writableBytes b <= n -> readFd_call0_append o = Zn (n - writableBytes b)) /\
+  readFd_ret o = Zn n /\ readFd_ret oerr = (-1)%Z.
 Proof. exact gen_readFd. Qed.
 Print Assumptions C10_gen_readFd.
+
+Theorem C10_gen_append_lengths : forall b n B off e, ridx b <= widx b ->
+  let o := set_len (Zn n) (buf_obs b B e) in
+  let os := set_start (B + Zn (ridx b) + off)%Z (buf_obs b B e) in
+  append1_call0_append (set_size (Zn n) (buf_obs b B e)) = Zn n /\
+  append2_void_call0_append o = Zn n /\
+  append2_char_call0_ensureWritableBytes o = Zn n /\
+  append2_char_call1_hasWritten o = Zn n /\
+  findEOL0_memchr0_len (buf_obs b B e) = Zn (readableBytes b) /\
+  findEOL1_memchr0_len os = (Zn (readableBytes b) - off)%Z /\
+  peekInt64_memcpy0_len e = Zn (wbytes W64) /\ peekInt32_memcpy0_len e = Zn (wbytes W32) /\
+  peekInt16_memcpy0_len e = Zn (wbytes W16) /\
+  retrieveAsString_string0_len o = Zn n.
+Proof. exact gen_append_lengths. Qed.
+Print Assumptions C10_gen_append_lengths.
+
+(* ---- the int casts of toStringPiece() / shrink() (review B-3) -----------------------------
+   Buffer.h:174 static_cast<int>(readableBytes()), Buffer.h:179/367 int StringPiece::size().
+   [step] (all theorems above) ignores them; [step_c] models them (length wrapped to a signed
+   32-bit int).  The source has exactly these two casts, both 32 bits wide (generated). *)
+Theorem C10_gen_int_casts : forall b B e,
+  narrowing_casts = 1%Z /\ signed_widening_casts = 1%Z /\
+  toStringPiece_narrow0 = int_bits /\ append1_widen_signed0 = int_bits /\
+  int_cast (toStringPiece_narrow0_arg (buf_obs b B e)) = toStringPiece_len b.
+Proof. exact gen_int_casts. Qed.
+Print Assumptions C10_gen_int_casts.
+
+(* below 2^31 readable bytes the faithful step IS the step all theorems above are about;
+   ops other than toStringPiece / shrink never see the cast *)
+Theorem C10_cast_invisible_below_2_31 : forall st o,
+  (Zn (readableBytes (fst st)) < 2 ^ 31)%Z -> step_c st o = step st o.
+Proof. exact step_c_eq. Qed.
+Print Assumptions C10_cast_invisible_below_2_31.
+
+Theorem C10_cast_only_two_ops : forall st o,
+  o <> ToStringPiece -> (forall r, o <> Shrink r) -> step_c st o = step st o.
+Proof. exact step_c_other. Qed.
+Print Assumptions C10_cast_only_two_ops.
+
+(* PARTIAL: the refinement theorem for the faithful step holds under the STATED bound
+   "fewer than 2^31 readable bytes" (the extra hypothesis; nothing else is missing) *)
+Theorem C10_refines_fifo_cast_partial : forall st s, reach st s ->
+  (Zn (length (fst s)) < 2 ^ 31)%Z ->
+  readable (fst st) = fst s /\ readable (snd st) = snd s /\
+  forall o,
+    if guard (fst st) o then
+      exists st', step_c st o = Ok (st', snd (spec_step s (fst st) o)) /\
+                  reach st' (fst (spec_step s (fst st) o))
+    else step_c st o = Rejected.
+Proof. exact refines_fifo_cast. Qed.
+Print Assumptions C10_refines_fifo_cast_partial.
+
+Theorem C10_in_bounds_cast_partial : forall st s o, reach st s ->
+  (Zn (length (fst s)) < 2 ^ 31)%Z -> step_c st o <> Fault.
+Proof. exact in_bounds_cast. Qed.
+Print Assumptions C10_in_bounds_cast_partial.
+
+(* REFUTED beyond the bound: a legal history (one append of 2^31 bytes to a fresh buffer; the
+   list is never computed) reaches a state where toStringPiece() yields a negative length and
+   shrink() is not a FIFO operation (append(data, (size_t)negative): std::length_error) ... *)
+Theorem C10_shrink_keeps_content_refuted :
+  exists st s r, reach st s /\ step_c st (Shrink r) = Fault /\ step_c st ToStringPiece = Fault.
+Proof. exact shrink_keeps_content_refuted. Qed.
+Print Assumptions C10_shrink_keeps_content_refuted.
+
+(* ... and with 2^32 + 5 readable bytes shrink() succeeds and silently keeps 5 of them *)
+Theorem C10_shrink_truncates_refuted :
+  exists st s r st', reach st s /\ step_c st (Shrink r) = Ok (st', OUnit) /\
+    length (readable (fst st')) < length (readable (fst st)).
+Proof. exact shrink_truncates_refuted. Qed.
+Print Assumptions C10_shrink_truncates_refuted.
+
+(* the exact behaviour in the two windows above the bound *)
+Theorem C10_beyond_int_negative : forall st s r, reach st s ->
+  (2 ^ 31 <= Zn (length (fst s)) < 2 ^ 32)%Z ->
+  step_c st ToStringPiece = Fault /\ step_c st (Shrink r) = Fault.
+Proof. exact beyond_int_negative. Qed.
+Print Assumptions C10_beyond_int_negative.
+
+Theorem C10_beyond_int_truncates : forall st s r, reach st s ->
+  (2 ^ 32 <= Zn (length (fst s)) < 2 ^ 32 + 2 ^ 31)%Z ->
+  let k := Z.to_nat (Zn (length (fst s)) - 2 ^ 32) in
+  exists st', step_c st (Shrink r) = Ok (st', OUnit) /\
+    readable (fst st') = firstn k (fst s) /\ k < length (fst s) /\
+    step_c st ToStringPiece = Ok (st, OBytes (firstn k (fst s))).
+Proof. exact beyond_int_truncates. Qed.
+Print Assumptions C10_beyond_int_truncates.
+
+Example ex_int_cast :
+  int_cast 2147483647 = 2147483647%Z /\ int_cast 2147483648 = (-2147483648)%Z /\
+  int_cast 4294967295 = (-1)%Z /\ int_cast 4294967301 = 5%Z.
+Proof. exact int_cast_examples. Qed.
+
+(* the bound's hypothesis is inhabited by every small history, and step_c runs there *)
+Example ex_step_c : exists st, step_c (new_buf 8, new_buf 0) (Shrink 3) = Ok (st, OUnit) /\
+  step_c (new_buf 8, new_buf 0) ToStringPiece = Ok ((new_buf 8, new_buf 0), OBytes []).
+Proof. vm_compute. eexists. split; reflexivity. Qed.
+
+(* the named record is not a disguise for positions: two records that differ only in the value
+   filed under one name give different answers exactly for the facts that read that name *)
+Example ex_named_operands : forall e,
+  let b := mkBuf (repeat x00 20) 8 10 0 in        (* readable 2, writable 10, writerIndex_ 10 *)
+  retrieve_assert0 (set_len 5%Z (buf_obs b 0%Z e)) = false /\
+  hasWritten_assert0 (set_len 5%Z (buf_obs b 0%Z e)) = true /\
+  retrieve_assert0 (set_len 5%Z (set_readableBytes 10%Z (buf_obs b 0%Z e))) = true.
+Proof. intro e. vm_compute. repeat split. Qed.
 
 (* ---- non-vacuity: a concrete history that compacts, grows, prepends, spills, fails a
    read, and uses every new member ------------------------------------------------------- *)
